@@ -205,11 +205,17 @@ def check(repo, tier):
             # symbolic product
             terms, probs = chain_terms(res._attrs['cores'])
             uids = {}
+            from . import mx
             for e in sc.events('svd'):
-                m = e['array']
+                # which two-cell super-core this decomposition factorises (directly, or through a QR of the matricisation / of its transpose)
+                m = mx.origin_array(e['uid'])
+                if m is None:
+                    m = e['array']
                 for b in range(d if cyclic else d - 1):
                     i, j = b, (b + 1) % d
-                    if sz_eq(m.shape[0], ss[i] * ss[i]) and sz_eq(m.shape[1], ss[j] * ss[j]):
+                    if m.ndim == 4 and all(sz_eq(x, y) for x, y in zip(m.shape, (ss[i], ss[i], ss[j], ss[j]))):
+                        uids[b] = e['uid']
+                    elif m.ndim == 2 and sz_eq(m.shape[0], ss[i] * ss[i]) and sz_eq(m.shape[1], ss[j] * ss[j]):
                         uids[b] = e['uid']
             want = set()
             S = lambda i: ('S', str(ss[i]))
